@@ -70,4 +70,5 @@ def run(chk):
 def safety_net(chk):
     from sym import ptreplay, ref
     return (ptreplay.battery_binary("P.Add", chk.seed, lambda p, q: ref.ed_add(p, q)) or ptreplay.battery_binary("P.Subtract", chk.seed, lambda p, q: ref.ed_add(p, ref.ed_neg(q)))
-            or ptreplay.battery_unary("P.Negate", chk.seed, lambda p: ref.ed_neg(p)) or ptreplay.battery_unary("P.MultByCofactor", chk.seed, lambda p: ref.ed_mul(8, p)))
+            or ptreplay.battery_unary("P.Negate", chk.seed, lambda p: ref.ed_neg(p)) or ptreplay.battery_unary("P.MultByCofactor", chk.seed, lambda p: ref.ed_mul(8, p))
+            or ptreplay.battery_receiver_history(chk.seed))
